@@ -19,7 +19,7 @@ VARIABLES l, nfail, runs, inst
 tvars == <<l, nfail, runs, inst>>
 
 ToSet(s) == {s[i] : i \in 1..Len(s)}
-StmtOf(j) == [kind |-> j.kind, place |-> j.place, T |-> j.T, U |-> j.U, V |-> j.V, e |-> j.e, pf |-> j.pf, on |-> j.on, hp |-> j.hp, mut |-> j.mut]
+StmtOf(j) == [kind |-> j.kind, place |-> j.place, T |-> j.T, U |-> j.U, V |-> j.V, e |-> j.e, pf |-> j.pf, on |-> j.on, hp |-> j.hp, mut |-> j.mut, sp |-> j.sp]
 InstOf(j) == [cfg |-> j.cfg, stmts |-> [i \in 1..Len(j.stmts) |-> StmtOf(j.stmts[i])]]
 
 AddFail(f) == /\ nfail' = nfail + 1
@@ -32,8 +32,17 @@ PClass(c, s, p) == IF p = "" THEN "none" ELSE IF p = Own(c, s.T) THEN "own"
                    ELSE "foreign"
 \* class of the (first) undeclared prefix of a statement
 BadPrefixClass(c, s) == LET i == CHOOSE i \in PSlots(Expr(s)) : s.pf[i] # "" /\ ~Known(c, s.T, s.pf[i]) IN PClass(c, s, s.pf[i])
-FailRec(e, what, s, detail) == [id |-> e.id, at |-> l, what |-> what, kind |-> s.kind, place |-> s.place, detail |-> detail,
-                               unit |-> IF IsSub(s.T) THEN "submodule" ELSE "module"]
+\* the syntactic form in which the (first) undeclared prefix of a statement is used: on a name (`p:n`), on a wildcard (`p:*`) or
+\* on both, and how the colons of the statement are written
+BadForm(c, s) == IF ~UnknownPrefix(c, s) THEN (IF s.sp = "" THEN "" ELSE "spaced-" \o s.sp)
+                 ELSE LET i == CHOOSE i \in PSlots(Expr(s)) : s.pf[i] # "" /\ ~Known(c, s.T, s.pf[i])
+                          x == Expr(s)
+                          onW == \E j \in 1..Len(x) : x[j].t = "w" /\ x[j].slot = i
+                          onN == \E j \in 1..Len(x) : x[j].t = "n" /\ x[j].slot = i
+                      IN (IF onW /\ onN THEN "name+wildcard" ELSE IF onW THEN "wildcard" ELSE "name") \o (IF s.sp = "" THEN "" ELSE ":spaced-" \o s.sp)
+FailRecF(e, what, s, detail, form) == [id |-> e.id, at |-> l, what |-> what, kind |-> s.kind, place |-> s.place, detail |-> detail, form |-> form,
+                                      unit |-> IF IsSub(s.T) THEN "submodule" ELSE "module"]
+FailRec(e, what, s, detail) == FailRecF(e, what, s, detail, "")
 NoStmt == [kind |-> "", place |-> "", T |-> ""]
 
 TInit == l = 1 /\ nfail = 0 /\ runs = 0 /\ inst = [cfg |-> "", stmts |-> << >>]
@@ -46,7 +55,7 @@ FirstBadName(c, s, want, got) ==
   IF Len(want) # Len(got) THEN "count"
   ELSE LET i == CHOOSE i \in 1..Len(want) : ~(want[i].l = got[i].l /\ (want[i].ns = "*" \/ want[i].ns = got[i].ns))
            k == NameToks(Expr(s))[i]
-       IN PClass(c, s, s.pf[k.slot])
+       IN PClass(c, s, s.pf[k.slot]) \o (IF k.t = "w" THEN ":wildcard" ELSE "")
 
 TXp == /\ l <= Len(Trace) /\ Trace[l].ev = "xp" /\ l' = l + 1 /\ UNCHANGED <<runs, inst>>
        /\ LET e == Trace[l]  s == inst.stmts[e.stmt]  want == Names(inst.cfg, s) IN
@@ -61,15 +70,19 @@ TEnd == /\ l <= Len(Trace) /\ Trace[l].ev = "end" /\ l' = l + 1 /\ UNCHANGED <<r
                bads == BadStmts(inst)
                b1 == IF bads = {} THEN NoStmt ELSE inst.stmts[CHOOSE i \in bads : TRUE]
                \* (for a derived invalid argument: the operation, and whether a character was inserted right after a prefix colon)
+               \* (for a control character: its code and whether the rest of the expression was kept behind it)
                mcl(s) == IF s.mut.op = "none" THEN "" ELSE ":" \o s.mut.op \o
-                            (IF s.mut.op = "ins" /\ s.mut.at >= 1 /\ SubSeq(Text(Expr(s), s.pf), s.mut.at, s.mut.at) = ":" THEN ":after-colon" ELSE "")
+                            (IF s.mut.op \in {"ctl", "ctlcut"} THEN ":U+00" \o s.mut.ch \o (IF s.mut.tail = "" THEN ":alone" ELSE ":then-junk") ELSE "") \o
+                            (IF s.mut.op = "ins" /\ s.mut.at >= 1 /\ SubSeq(Text(Expr(s), s.pf, s.sp), s.mut.at, s.mut.at) = ":" THEN ":after-colon" ELSE "")
                why(s) == IF ~SyntaxOK(s) THEN "syntax" \o mcl(s) ELSE "unknown-prefix:" \o BadPrefixClass(inst.cfg, s)
            IN IF e.verdict \in {"crash", "timeout"} THEN AddFail(FailRec(e, e.verdict, b1, ""))
-              ELSE IF want = "error" /\ e.verdict = "ok" THEN AddFail(FailRec(e, "accepted-invalid", b1, why(b1)))
+              ELSE IF want = "error" /\ e.verdict = "ok" THEN AddFail(FailRecF(e, "accepted-invalid", b1, why(b1), BadForm(inst.cfg, b1)))
+              \* validity not judged (blanks around a prefix colon, every prefix declared): accepted or refused, but one answer
+              ELSE IF want = "any" /\ e.verdict \notin {"ok", "error"} THEN AddFail(FailRec(e, e.verdict, inst.stmts[1], ""))
               ELSE IF want = "ok" /\ e.verdict # "ok" THEN AddFail(FailRec(e, "rejected-valid", inst.stmts[1], ""))
               ELSE IF want = "error" /\ (\A i \in bads : NamedJudged(inst.stmts[i])) /\ ToSet(e.named) \cap bads = {}
-                   THEN AddFail(FailRec(e, "named", b1, why(b1)))
-              ELSE IF want = "ok" /\ e.missing # << >> THEN AddFail(FailRec(e, "missing", inst.stmts[e.missing[1]], ""))
+                   THEN AddFail(FailRecF(e, "named", b1, why(b1), BadForm(inst.cfg, b1)))
+              ELSE IF want \in {"ok", "any"} /\ e.verdict = "ok" /\ e.missing # << >> THEN AddFail(FailRec(e, "missing", inst.stmts[e.missing[1]], ""))
               ELSE UNCHANGED nfail
 
 TNext == TReset \/ TXp \/ TEnd
